@@ -348,12 +348,12 @@ func atomicHandler(w *workerCtx, line []byte) (any, error) {
 	select {
 	case derr = <-p.Done:
 		finished = true
-	case <-time.After(3 * time.Second):
+	case <-idleAfter(1 * time.Second):
 		p.End.Out.CloseWrite()
 		select {
 		case derr = <-p.Done:
 			finished = true
-		case <-time.After(10 * time.Second):
+		case <-idleAfter(10 * time.Second):
 		}
 	}
 	p.End.Close()
